@@ -1718,6 +1718,157 @@ def wl_sizes(ctx, rng):
                     CUR['desc'] = None
 
 
+# ---- hardening pass 5: class N' (FFT backends lacking optional helpers) ---------------------------------------------------------
+RULE = RULE + ('.  Hardening pass 5 -- class N\': the band-complete mdft / czt pair (both orders, output sizes that are not powers of two, m + M - 1 on '
+               'both sides of a power of two), the padded FFT pair and the free-space laws under prysm.mathops.fft._srcmodule = numpy.fft and = a minimal '
+               'shim object (fft, ifft, fft2, ifft2, fftn, ifftn, fftshift, ifftshift only), judged by the same oracles')
+ASSUMPTIONS = ASSUMPTIONS + [
+    'backends (vp.util.fft_backend): every law holds on the reference tree under numpy.fft and under the minimal shim (established on /repo); under '
+    'the shim the transfer function cannot be built (propagation calls fft.fftfreq directly -> AttributeError: out of domain, excluded and counted), '
+    'so free space is judged there in the tf= form with a transfer function built under the default backend; executors are cleared at every switch',
+]
+REQUIRED = REQUIRED + ['backend.laws']
+
+
+class _ShimFFT:
+    """A minimal FFT backend: only the transforms and the shifts (delegating to scipy.fft); no fftfreq, no next_fast_len, no set_workers."""
+    NAMES = ('fft', 'ifft', 'fft2', 'ifft2', 'fftn', 'ifftn', 'fftshift', 'ifftshift')
+
+    def __init__(self):
+        import scipy.fft as sfft
+        for nm in self.NAMES:
+            setattr(self, nm, getattr(sfft, nm))
+
+
+# (n, out) pairs: out never a power of two on at least one axis; n + out - 1 below, at and above powers of two; Q = 1 and Q != 1 (also non-integer)
+BACKEND_PAIRS = [((12, 12), (12, 12)), ((8, 12), (12, 18)), ((9, 6), (18, 12)), ((5, 7), (15, 21)), ((3, 5), (3, 5)), ((6, 6), (6, 6)),
+                 ((7, 9), (10, 9)), ((1, 12), (1, 12)), ((11, 1), (13, 1)), ((10, 10), (23, 23)), ((9, 9), (24, 24)), ((16, 16), (17, 17)),
+                 ((17, 17), (17, 17)), ((5, 5), (12, 12)), ((4, 6), (5, 11)), ((24, 3), (41, 6)), ((20, 20), (45, 45)), ((33, 2), (33, 3))]
+BACKEND_PAIRS_MORE = [((31, 33), (34, 33)), ((40, 25), (89, 26)), ((64, 64), (65, 65)), ((50, 3), (79, 7)), ((100, 1), (157, 1)), ((7, 63), (9, 66))]
+
+
+def _backends():
+    import numpy.fft as npfft
+    return (('numpy.fft', npfft), ('shim', _ShimFFT()))
+
+
+def wl_backends(ctx, rng):
+    """Class N': the laws of the property under FFT backends that lack the optional helpers (next_fast_len, fftfreq, set_workers), where
+    the fall-backs inside fttools are live."""
+    from prysm import fttools, propagation as P
+    from ..util import fft_backend, precision
+    pairs = BACKEND_PAIRS + ctx.pick([], BACKEND_PAIRS_MORE)
+    if not ctx.quick:
+        g = np.random.default_rng([ctx.seed, 77])
+        for _ in range(150):
+            n0, n1 = (int(v) for v in g.integers(1, 40, 2))
+            d0, d1 = (int(v) for v in g.integers(0, 40, 2))
+            pairs.append(((n0, n1), (n0 + d0, n1 + d1)))
+    k = -1
+    for bname, mod in _backends():
+        tag = f'backend:{bname}'
+        fttools.mdft.clear()
+        fttools.czt.clear()
+        try:
+            # (1) band-complete pairs
+            for (n, out) in pairs:
+                for engine in ('mdft', 'czt'):
+                    for order in ('fwd-inv', 'inv-fwd'):
+                        k += 1
+                        if not ctx.mine(k):
+                            continue
+                        r = k // ctx.nshards
+                        bits = 32 if r % 7 == 6 else 64
+                        seed = ctx.subseed(rng)
+                        dk = DATA_KINDS[r % len(DATA_KINDS)]
+                        a = field_of_kind(dk, n, seed, bits)
+                        desc = {'wl': 'backends', 'backend': bname, 'engine': engine, 'order': order, 'n': n, 'out': out, 'bits': bits, 'seed': seed,
+                                'field_dtype': str(a.dtype), 'class': f'{tag}:band:{engine}:{order}:{shape_kind(n)}:{axes_class(n, out)}:f{bits}'}
+                        ctx.case(desc, nontrivial=nontrivial(a))
+                        if not nontrivial(a):
+                            continue
+                        ctx.observe('backend.laws')
+                        CUR['desc'] = desc
+                        try:
+                            with fft_backend(mod), precision(bits), ctx.guard(f'C02/{engine}/band-complete/{tag}', desc):
+                                f_fwd, f_inv = _engine_fns(engine)
+                                first, second = (f_fwd, f_inv) if order == 'fwd-inv' else (f_inv, f_fwd)
+                                Q = (out[0] / n[0], out[1] / n[1])
+                                F = first(a, Q, out)
+                                back = second(F, 1, n)
+                                judge_band(engine, a, n, out, order, desc, bits == 32, F, back, via=f'/{tag}')
+                        finally:
+                            CUR['desc'] = None
+            # (2) the padded FFT pair and (3) free space
+            shapes = [(12, 12), (7, 10), (9, 5), (1, 12), (13, 1), (6, 6), (24, 10), (17, 3)] + ctx.pick([], [(33, 47), (100, 1), (65, 66), (3, 129)])
+            for (m, nn) in shapes:
+                for Q in (1, 2, 3, 1.5):
+                    k += 1
+                    if not ctx.mine(k):
+                        continue
+                    r = k // ctx.nshards
+                    bits = 32 if r % 5 == 4 else 64
+                    single = bits == 32
+                    seed = ctx.subseed(rng)
+                    a = make_input((m, nn), True, seed, bits=bits)
+                    wvl, dx = [0.55, 0.6328, 1.55][r % 3], [0.01, 0.1, 1.0][r % 3]
+                    desc = {'wl': 'backends', 'backend': bname, 'in': (m, nn), 'Q': Q, 'wvl': wvl, 'dx': dx, 'bits': bits, 'seed': seed,
+                            'class': f'{tag}:fft+as:{shape_kind((m, nn))}:{qclass(Q)}:p{bits}'}
+                    ctx.case(desc)
+                    ctx.observe('backend.laws')
+                    CUR['desc'] = desc
+                    try:
+                        with fft_backend(mod), precision(bits), ctx.guard(f'C02/fft-pair/{tag}', desc):
+                            out = (math.ceil(m * Q), math.ceil(nn * Q))
+                            ref = origin_pad(a, out)
+                            cls = f'{qclass(Q)}/pad:{axes_class((m, nn), out)}/{tag}'
+                            F = P.focus(a, Q)
+                            energy_close('fft.energy', energy(F), energy(a), f'C02/fft-energy/focus/{cls}', 'focus(a, Q) does not conserve energy', desc, single)
+                            field_close('fft.roundtrip', P.unfocus(F, 1), ref, f'C02/fft-roundtrip/unfocus(focus)/{cls}',
+                                        'unfocus(focus(a,Q),1) is not the origin-aligned zero padding of a', desc, single)
+                            w2 = P.Wavefront(a, wvl, 3.0, space='psf')
+                            field_close('fft.roundtrip', w2.unfocus(100., Q=Q).focus(100., Q=1).data, ref, f'C02/fft-roundtrip/focus(unfocus)/{cls}',
+                                        'focus(unfocus(a,Q),1) is not the origin-aligned zero padding of a', desc, single)
+                        eps = float(np.finfo(np.float32 if single else np.float64).eps)
+                        with precision(bits):
+                            z = moderate_z(rng, (m, nn), wvl, dx, eps)
+                        sk = f'{shape_kind((m, nn))}/{tag}'
+                        cond = COND_MULT * eps * 3 * tf_phase((m, nn), wvl, dx, z)
+                        if bname == 'shim':
+                            # the transfer function needs fft.fftfreq: out of domain under the shim; built under the default backend, used under the shim
+                            ctx.skip('backends: angular_spectrum_transfer_function under a backend without fftfreq (AttributeError on the reference tree)')
+                            with precision(bits), ctx.guard(f'C02/free-space/{tag}', desc):
+                                tfs = {zz: P.angular_spectrum_transfer_function((m, nn), wvl, dx, zz) for zz in (z, -z, 0.0, z / 2)}
+                                with fft_backend(mod):
+                                    fwd = P.angular_spectrum(a, wvl, dx, z, Q=1, tf=tfs[z])
+                                    energy_close('as.energy', energy(fwd), energy(a), f'C02/free-space/energy/{sk}', 'free space (tf=) does not conserve energy', desc, single)
+                                    field_close('as.undo', P.Wavefront(fwd, wvl, dx).free_space(tf=tfs[-z]).data, a, f'C02/free-space/z-then-minus-z/{sk}',
+                                                'propagating by z and then by -z (tf= form) does not return the field', desc, single, rtol64=1e-10, rtol32=1e-3)
+                                    field_close('as.identity', P.angular_spectrum(a, wvl, dx, 0.0, Q=1, tf=tfs[0.0]), a, f'C02/free-space/z=0-not-identity/{sk}',
+                                                'free-space propagation by z = 0 (tf= form) is not the identity', desc, single, rtol64=1e-10, rtol32=1e-3)
+                                    two = P.angular_spectrum(P.angular_spectrum(a, wvl, dx, z / 2, tf=tfs[z / 2]), wvl, dx, z / 2, tf=tfs[z / 2])
+                                    field_close('as.compose', two, fwd, f'C02/free-space/z1-then-z2!=z1+z2/{sk}', 'two steps of z/2 differ from one step of z (tf= form)',
+                                                desc, single, rtol64=1e-10, rtol32=1e-3, extra_rtol=cond)
+                        else:
+                            with fft_backend(mod), precision(bits), ctx.guard(f'C02/free-space/{tag}', desc):
+                                fwd = P.angular_spectrum(a, wvl, dx, z, Q=1)
+                                energy_close('as.energy', energy(fwd), energy(a), f'C02/free-space/energy/{sk}', 'free space does not conserve energy', desc, single)
+                                field_close('as.undo', P.Wavefront(fwd, wvl, dx).free_space(dz=-z).data, a, f'C02/free-space/z-then-minus-z/{sk}',
+                                            'propagating by z and then by -z does not return the field', desc, single, rtol64=1e-10, rtol32=1e-3)
+                                field_close('as.identity', P.angular_spectrum(a, wvl, dx, 0.0, Q=1), a, f'C02/free-space/z=0-not-identity/{sk}',
+                                            'free-space propagation by z = 0 is not the identity', desc, single, rtol64=1e-10, rtol32=1e-3)
+                                two = P.angular_spectrum(P.angular_spectrum(a, wvl, dx, z / 2, Q=1), wvl, dx, z / 2, Q=1)
+                                field_close('as.compose', two, fwd, f'C02/free-space/z1-then-z2!=z1+z2/{sk}', 'two steps of z/2 differ from one step of z',
+                                            desc, single, rtol64=1e-10, rtol32=1e-3, extra_rtol=cond)
+                                if Q != 1:
+                                    P.angular_spectrum(a, wvl, dx, z, Q=Q)          # energy contract under padding
+                    finally:
+                        CUR['desc'] = None
+        finally:
+            fttools.mdft.clear()
+            fttools.czt.clear()
+
+
 def run(ctx):
     global CTX
     CTX = ctx
@@ -1749,6 +1900,7 @@ def run(ctx):
         timed('units', wl_units, ctx, ctx.rng('c02-units'))
         timed('special-z', wl_special_z, ctx, ctx.rng('c02-special-z'))
         timed('sizes', wl_sizes, ctx, ctx.rng('c02-sizes'))
+        timed('backends', wl_backends, ctx, ctx.rng('c02-backends'))
         ctx.note('workload_seconds(first shard)', secs)
         ctx.note('largest_error_over_tolerance_among_held_comparisons(first shard)', {k: float(f'{v:.2e}') for k, v in sorted(STATS.items())})
     finally:
